@@ -916,6 +916,79 @@ theorem specs_required_variables (leaves : List Structure) :
     exact ⟨_, List.mem_map_of_mem hst, hv⟩
 
 end Specs
+/-! ## histories of look-ups on one spec -/
+
+/-- C10.16  Look-ups are pure. Whatever sequence of accessor calls is made on a materialized spec —
+`term_indices[k]`, `.get(k)`, `k in`, the same on `term_slices`, `get_slice`, `get_term_indices`,
+`column_indices[n]`, `get_column_indices`, `variable_indices[v]`, `get_variable_indices`; by `Term`, by
+printed form, by column name; succeeding or raising; in any order, any number of times — the cached
+mappings are afterwards exactly what they were (same keys, same order, same values: reading the
+metadata again gives what it gave before), and every call of the history is answered exactly as it
+would have been answered as the first call. -/
+theorem lookup_history_pure (s : SpecState) (h : List Op) :
+    (s.run h).1 = s ∧
+    (s.run h).2 = h.map (fun op => (s.step op).2) ∧
+    (∀ h' : List Op, (s.run (h ++ h')).2 = (s.run h).2 ++ (s.run h').2) := by
+  have hstep : ∀ (s : SpecState) (op : Op), (s.step op).1 = s := by
+    intro s op; cases op <;> rfl
+  have hrun : ∀ (h : List Op) (s : SpecState),
+      (s.run h).1 = s ∧ (s.run h).2 = h.map (fun op => (s.step op).2) := by
+    intro h
+    induction h with
+    | nil => intro s; exact ⟨rfl, rfl⟩
+    | cons op rest ih =>
+      intro s
+      simp only [SpecState.run, hstep s op, List.map_cons]
+      exact ⟨(ih s).1, by rw [(ih s).2]⟩
+  refine ⟨(hrun h s).1, (hrun h s).2, ?_⟩
+  intro h'
+  rw [(hrun (h ++ h') s).2, (hrun h s).2, (hrun h' s).2, List.map_append]
+
+/-- C10.17  On the state of a materialized spec every transition answers with the look-up functions
+that C10.2–C10.5 and C10.11–C10.12 are about (so those theorems describe every call of every history). -/
+theorem history_step_is_lookup (F : List Term) (st : Structure) :
+    (∀ k, ((SpecState.init F st).step (.tiItem k)).2 = ((termIndices st).get k).map .nats) ∧
+    (∀ k, ((SpecState.init F st).step (.tiGet k)).2 = ((termIndices st).getDefault k).map .optNats) ∧
+    (∀ k, ((SpecState.init F st).step (.tiIn k)).2 = .ok (.bool ((termIndices st).contains k))) ∧
+    (∀ k, ((SpecState.init F st).step (.tsItem k)).2 = ((termSlices st).get k).map .range) ∧
+    (∀ k, ((SpecState.init F st).step (.tsGet k)).2 = ((termSlices st).getDefault k).map .optRange) ∧
+    (∀ k, ((SpecState.init F st).step (.tsIn k)).2 = .ok (.bool ((termSlices st).contains k))) ∧
+    (∀ id, ((SpecState.init F st).step (.slice id)).2 = (getSliceAny st id).map .pyslice) ∧
+    (∀ o p, ((SpecState.init F st).step (.termIdx o p)).2 =
+      (getTermIndicesSpec F st o p).map .nats) ∧
+    (∀ cols, ((SpecState.init F st).step (.colIdx cols)).2 = (getColumnIndices st cols).map .nats) ∧
+    (∀ vs, ((SpecState.init F st).step (.varIdx vs)).2 = (getVariableIndices st vs).map .nats) := by
+  refine ⟨fun _ => rfl, fun _ => rfl, fun _ => rfl, fun _ => rfl, fun _ => rfl, fun _ => rfl, ?_, ?_,
+    fun _ => rfl, ?_⟩
+  · intro id
+    cases id <;> rfl
+  · intro o p
+    simp only [SpecState.step, SpecState.init, getTermIndicesSpec, getTermIndices]
+    cases specTerms o p with
+    | error e => rfl
+    | ok spec =>
+      simp only [bind, Except.bind]
+      cases restricted F spec with
+      | error e => rfl
+      | ok terms =>
+        simp only
+        cases terms.mapM (fun t => (termIndices st).get (.term t)) <;> rfl
+  · intro vs
+    simp only [SpecState.step, SpecState.init, getVariableIndices]
+    cases variableIndices st with
+    | error e => rfl
+    | ok d =>
+      simp only [bind, Except.bind]
+      cases vs.mapM (fun v => match d.lookup v with | some i => Except.ok i | none => Except.error PyErr.keyError) <;> rfl
+
+/-- a history on the demo spec: failing and succeeding look-ups by printed form, the first one twice -/
+example : ((SpecState.init (demo.map (·.term)) demo).run
+      [.tiItem (.str ['B', ':', 'A']), .tiIn (.str ['z']), .tiGet (.str ['A', ':', 'B']),
+       .tiItem (.str ['B', ':', 'A']), .tiItem (.str ['q'])]).2
+    = [.ok (.nats [1, 2]), .ok (.bool false), .ok (.optNats (some [1, 2])), .ok (.nats [1, 2]),
+       .error .keyError] := by decide
+
+
 /-! ## the finite tables of the model against the live package -/
 
 /-- C10.15  What the model copies from the code is what the live package holds (regenerated into
